@@ -285,6 +285,9 @@ pub struct RegimeG {
 #[derive(Clone, Debug)]
 pub struct BuildingG {
     pub n: usize,
+    /// number of steps actually kept (<= n): gives the shrinker a way to drop steps without
+    /// regenerating the whole building
+    pub keep: usize,
     pub id_off: u8,
     pub systems: Vec<SysG>,
     pub regime: Option<RegimeG>,
@@ -548,6 +551,7 @@ pub fn building_g(p: &BParams) -> BoxedStrategy<BuildingG> {
             };
             let fuels = allowed_fuels(&p);
             (
+                prop_oneof![1 => 0..n, 9 => Just(n - 1)],
                 proptest::option::weighted(reg_p, regimeg(n, &p)),
                 prop::bool::weighted(0.7),
                 any::<u8>(),
@@ -555,10 +559,11 @@ pub fn building_g(p: &BParams) -> BoxedStrategy<BuildingG> {
                 any::<bool>(),
                 select(fuels),
             )
-                .prop_flat_map(move |(regime, quiet_elec, id_off, needs, interleave, cogen_fuel)| {
+                .prop_flat_map(move |(keep, regime, quiet_elec, id_off, needs, interleave, cogen_fuel)| {
                     let no_elec = regime.is_some() && quiet_elec;
                     let min_sys = if regime.is_some() { 0 } else { 1 };
                     (
+                        Just(keep + 1),
                         vec(sysg(n, &p1, no_elec), min_sys..=p1.max_systems),
                         Just(regime),
                         Just(id_off),
@@ -567,8 +572,9 @@ pub fn building_g(p: &BParams) -> BoxedStrategy<BuildingG> {
                         Just(cogen_fuel),
                     )
                 })
-                .prop_map(move |(systems, regime, id_off, needs, interleave, cogen_fuel)| BuildingG {
+                .prop_map(move |(keep, systems, regime, id_off, needs, interleave, cogen_fuel)| BuildingG {
                     n,
+                    keep,
                     id_off,
                     systems,
                     regime,
@@ -615,7 +621,7 @@ impl Acc {
 }
 
 pub fn resolve(g: &BuildingG) -> Building {
-    let n = g.n;
+    let n = g.keep.min(g.n).max(1);
     let mut acc = Acc::new(n);
     let mut items: Vec<(u8, Line)> = vec![];
     let mut tags: Vec<String> = vec![];
@@ -764,6 +770,7 @@ pub fn resolve(g: &BuildingG) -> Building {
                 (
                     *sv,
                     ov.iter()
+                        .take(n)
                         .map(|o| match o {
                             OutVG::Zero => 0,
                             OutVG::Pos(c) => *c as i64,
@@ -819,7 +826,7 @@ pub fn resolve(g: &BuildingG) -> Building {
     let needs = g
         .needs
         .iter()
-        .map(|(sv, v)| Need { srv: *sv, vals: v.iter().map(|c| cents_f32(*c as i64)).collect() })
+        .map(|(sv, v)| Need { srv: *sv, vals: v.iter().take(n).map(|c| cents_f32(*c as i64)).collect() })
         .collect();
     Building { n, meta: vec![], needs, lines, tags }
 }
